@@ -190,9 +190,20 @@ def run(eng, R):
         def is_pending(e):
             return self_attr(e) == "_unprocessed_entries" or (isinstance(e, ast.Name) and e.id in pend_alias)
 
+        # a local that holds the processed list, taken before it is cleared (`_old = self._processed_entries; self._processed_entries = []; pending += _old`)
+        proc_alias = {a.targets[0].id for a in ast.walk(rb.node) if isinstance(a, ast.Assign) and len(a.targets) == 1 and isinstance(a.targets[0], ast.Name) and self_attr(a.value) == "_processed_entries"}
+        proc_alias = {k for k in proc_alias if sum(1 for a in ast.walk(rb.node) if isinstance(a, ast.Assign) and any(isinstance(t, ast.Name) and t.id == k for t in a.targets)) == 1}
+
+        def is_processed(e):
+            return self_attr(e) == "_processed_entries" or (isinstance(e, ast.Name) and e.id in proc_alias)
+
+        def saves_processed(n):
+            st = n.stmt
+            return n.kind == "stmt" and isinstance(st, ast.Assign) and len(st.targets) == 1 and isinstance(st.targets[0], ast.Name) and st.targets[0].id in proc_alias
+
         def requeue(n):
             st = n.stmt
-            if n.kind == "stmt" and isinstance(st, ast.AugAssign) and isinstance(st.op, ast.Add) and is_pending(st.target) and self_attr(st.value) == "_processed_entries":
+            if n.kind == "stmt" and isinstance(st, ast.AugAssign) and isinstance(st.op, ast.Add) and is_pending(st.target) and is_processed(st.value):
                 return True
             if n.kind == "stmt" and isinstance(st, ast.Assign):
                 for t, v in _pairs(st):   # (a, b = x, y  is two stores; the right-hand sides are evaluated before either)
@@ -202,7 +213,7 @@ def run(eng, R):
                             return True
                 return False
             for c in eng.calls_in_parts(n.ast_parts()):
-                if isinstance(c.func, ast.Attribute) and c.func.attr == "extend" and is_pending(c.func.value) and c.args and self_attr(c.args[0]) == "_processed_entries":
+                if isinstance(c.func, ast.Attribute) and c.func.attr == "extend" and is_pending(c.func.value) and c.args and is_processed(c.args[0]):
                     return True
             return False
 
@@ -221,6 +232,8 @@ def run(eng, R):
         rq_ok = bool(clr) or bool(combined)
         for n in clr:
             ok, _ = grb.dominated_by(n.id, requeue)
+            if not ok and proc_alias:
+                ok, _ = grb.dominated_by(n.id, saves_processed)   # (the old list was put aside first and is re-queued from there)
             rq_ok = rq_ok and ok
         ok_all, wit = grb.all_paths_pass(grb.entry.id, requeue)
         R.ob("G4", "rebin:requeue", rq_ok and ok_all, eng.where(rb), "rebin does not re-queue all processed entries before clearing them (previously filled entries are lost)")
@@ -244,6 +257,10 @@ def run(eng, R):
                     defs = [a.value for a in ast.walk(fl.node) if isinstance(a, ast.Assign) and len(a.targets) == 1 and isinstance(a.targets[0], ast.Name) and a.targets[0].id == v.id]
                     if len(defs) == 1:
                         v = defs[0]
+                    elif defs and all((isinstance(d, ast.Call) and common.call_name(d) == "list" and d.args and isinstance(d.args[0], ast.Name) and d.args[0].id == "entries")
+                                      or (isinstance(d, ast.List) and len(d.elts) == 1 and isinstance(d.elts[0], ast.Name) and d.elts[0].id == "entries") for d in defs) \
+                            and any(isinstance(d, ast.Call) for d in defs):
+                        q_ok = True   # (`list(entries)`, or `[entries]` where a scalar cannot be iterated)
                 if isinstance(v, ast.Call) and common.call_name(v) == "list" and v.args and isinstance(v.args[0], ast.Name) and v.args[0].id == "entries":
                     q_ok = True
             if isinstance(n, ast.Call) and isinstance(n.func, ast.Attribute) and n.func.attr == "extend" and self_attr(common.resolve_local(fl.node, n.func.value)) == "_unprocessed_entries" and n.args:
